@@ -31,7 +31,9 @@ def run():
                        "sequences of suspend/resume of single PUs (throwing and error_code forms) and of the whole "
                        "pool issued from an OS thread and from default-pool tasks, hinted/unhinted submissions "
                        "before, during (concurrent thread) and after suspension, refusal cases (no elasticity, "
-                       "non-stealing pool suspending itself); at the end all PUs are resumed and every task must "
+                       "non-stealing pool suspending itself); on stealing elastic pools also: pool suspended, hinted and "
+                       "unhinted tasks submitted, only a part of the workers resumed, all tasks must complete on "
+                       "that part and a further pool suspend must return; at the end all PUs are resumed and every task must "
                        "have run exactly once, never on a worker between its suspend return and resume call; "
                        "validated by TLC against PuAbs")
     chk.assumptions += ["sequential consistency in the model",
